@@ -76,7 +76,10 @@ func drawUint64(rt *rapid.T) uint64 {
 var floatEdge = []float64{0, math.Copysign(0, -1), 1, -1, 0.5, 1e10, -1e10, 255, 256, -129, 65536, 1 << 53, 1<<53 + 2,
 	math.MaxFloat32, -math.MaxFloat32, math.MaxFloat32 * 1.0000001, -math.MaxFloat32 * 2, 1e39, -1e39, 1e300, -1e300,
 	math.MaxFloat64, -math.MaxFloat64, math.SmallestNonzeroFloat32, math.SmallestNonzeroFloat64, 1e-46,
-	math.Inf(1), math.Inf(-1), math.NaN(), 3.4028235677973366e38, 3.4028236e38}
+	math.Inf(1), math.Inf(-1), math.NaN(), 3.4028235677973366e38, 3.4028236e38,
+	// only just beyond the F4 bound: less than half a float32 ulp above MaxFloat32 (the narrowing
+	// conversion alone would round these back to MaxFloat32 - the clamp must still see them)
+	math.Nextafter(math.MaxFloat32, math.Inf(1)), -math.Nextafter(math.MaxFloat32, math.Inf(1)), 3.4028235e38, -3.4028235e38, math.MaxFloat32 + 0x1p102}
 
 func drawFloat64(rt *rapid.T) float64 {
 	if rapid.IntRange(0, 2).Draw(rt, "fsrc") > 0 {
@@ -616,5 +619,19 @@ func checkErrored(rt *rapid.T, e secs2.Item, call string) {
 	}
 	if m, err := base.Derive().WithItem(cur).Build(); err == nil || m != nil {
 		rt.Fatalf("C16 violated: Derive().WithItem(errored).Build() succeeded (from %s, nested %d)", call, depth)
+	}
+	// one builder, several Build calls: a Build refused for ANOTHER reason (stream > 127, W-bit on an
+	// even function) must not make the builder forget that its item is errored
+	b := base.Derive().WithItem(cur)
+	for i, step := range []func(){
+		func() { b.WithStream(200) },
+		func() { b.WithStream(1).WithFunction(2).WithWaitBit(true) },
+		func() { b.WithFunction(1).WithWaitBit(true) },
+		func() { b.WithSessionID(9) },
+	} {
+		step()
+		if m, err := b.Build(); err == nil || m != nil {
+			rt.Fatalf("C16 violated: Build number %d on one builder holding an errored item (from %s, nested %d) succeeded", i+1, call, depth)
+		}
 	}
 }
